@@ -9,6 +9,7 @@ the compiled model, which must enable every label and print the same outputs and
 Oracle (independent of the model): the expected firing instants are recomputed from the call history by
 the rules of the property and compared with the recorded callback invocations.
 """
+from vlib.util import guarded_leg
 import collections, json, random
 
 from onl.sim import Environment
@@ -717,6 +718,7 @@ def timerk_oracle(c, lines, stats=None):
     return []
 
 
+@guarded_leg(lambda: ([], [], {}))
 def run_timerk(ctx):
     """extra leg: the K program of the Timer (TimerOnK.body, the object of the theorems in Props/C19K.lean) against the real Timer"""
     rng = random.Random(f'C19-timerk-{ctx.seed}')
